@@ -35,6 +35,70 @@ def once_ids(sites):
     return ids if len(ids) == 4 else None
 
 
+SCHED_LINE = __import__("re").compile(r'^"SCHED (.*)"$')
+
+
+def turn_class(lab, nxt):
+    """gate class of one step <<g, label, next label>> of an OnceSched behaviour (None: the step passes no gate)"""
+    if lab == "Call":
+        return None if nxt == "Done" else 1            # getter entry
+    if lab == "Fast":
+        return 2 if nxt == "BuildFlag" else None       # builder entry (flag protocol: the winner of the CAS)
+    if lab == "Recheck":
+        return 2 if nxt == "Build" else None           # builder entry
+    if lab in ("Build", "BuildFlag"):
+        if nxt == lab:
+            return 3                                   # one build step
+        return 4 if lab == "BuildFlag" else None       # builder exit (flag protocol); sync.Once: exit comes with Publish
+    if lab == "Publish":
+        return 4                                       # builder exit
+    if lab == "Read":
+        return 5                                       # getter exit
+    if lab == "ReadLoop":
+        return 6 if nxt == "ReadLoop" else None        # one read step
+    return None
+
+
+def generate_schedules(work, count):
+    """behaviours of spec/OnceSched.tla (sync.Once and its named deviations) from `tlc -simulate`, projected on gate steps"""
+    out_scheds, seen, stats = [], set(), {}
+    per = {"ok": max(2, count // 6), "flag": count, "nolock": count, "early": count}
+    cand = {}
+    for v in ("ok", "flag", "nolock", "early"):
+        rc, out, gen, dist = vlib.tlc(work, "OnceSched", "OnceSched_%s.cfg" % v, workers=1, timeout=300, heap="2g",
+                                      simulate=["-simulate", "num=%d" % 400, "-depth", "90", "-seed", str(vlib.seed() * 31 + 18)])
+        if v == "ok" and "is violated" in out:
+            raise Infra("OnceSched with every deviation off violates the invariants of Once:\n" + out[-3000:])
+        lst = []
+        for line in out.splitlines():
+            m = SCHED_LINE.match(line)
+            if not m:
+                continue
+            b = json.loads(vlib.unq(m.group(1)))
+            turns = [[t[0], turn_class(t[1], t[2])] for t in b["turns"]]
+            turns = [t for t in turns if t[1] is not None]
+            key = (tuple(b["use"]), tuple(map(tuple, turns)))
+            if key in seen or not any(u != "-" for u in b["use"]):
+                continue
+            seen.add(key)
+            lst.append({"variant": v, "use": b["use"], "bad": bool(b["bad"]), "turns": turns})
+        if not lst:
+            raise Infra("tlc -simulate of OnceSched/%s produced no behaviours:\n%s" % (v, out[-2000:]))
+        stats[v] = {"behaviours": len(lst), "violating_the_invariants_of_Once": sum(1 for x in lst if x["bad"])}
+        cand[v] = lst
+    # the behaviours in which a deviation breaks the invariants of Once first (they are the adversarial schedules), round robin
+    order = []
+    for v in ("flag", "nolock", "early"):
+        cand[v].sort(key=lambda x: not x["bad"])
+    k = 0
+    while len(order) < count and any(cand.values()):
+        for v in ("flag", "nolock", "early", "ok"):
+            if cand[v] and (v != "ok" or k % 3 == 0) and len(order) < count:
+                order.append(cand[v].pop(0))
+        k += 1
+    return order, stats
+
+
 def run_scenario(driver, scn, work, tag, gomaxprocs, race=False, chaos=0):
     sj = os.path.join(work.dir, "scn-%s-%d.json" % (tag, scn["id"]))
     tj = os.path.join(work.dir, "scn-%s-%d.ndjson" % (tag, scn["id"]))
@@ -68,6 +132,8 @@ def check(tier):
             print("timing: drivers built at %.0fs" % (time.time() - t0))
         rng = random.Random(vlib.seed() * 65537 + 18)
         nscn = 10 if tier == "quick" else 48
+        if os.environ.get("VERIF_C18_ONLY") == "gated":      # development aid: only the schedule replays (never used by a registered command)
+            nscn = 0
         scns = [suites.conc_scenario(i + 1, rng, rng.choice([2, 3, 4, 8, 16])) for i in range(nscn)]
         fails, races = [], []
         tot = {"events": 0, "conjuncts": 0, "states": 0, "transitions": 0}
@@ -79,6 +145,7 @@ def check(tier):
             gmps = [rng.choice([1, 2, 4, 16]) for _ in scns]
             lock = __import__("threading").Lock()
             once_n = [0]
+            gate_info = {"schedules": 0, "turns": 0, "passed": 0, "stutter": 0, "adversarial": 0, "generated": None}
 
             def do_scn(k):
                 scn, gmp = scns[k], gmps[k]
@@ -116,6 +183,40 @@ def check(tier):
             with cf.ThreadPoolExecutor(max_workers=4) as ex2:
                 for r in ex2.map(do_scn, range(len(scns))):
                     pass
+            # spec -> code: behaviours of OnceSched (sync.Once and its deviations) replayed as schedules into gated goroutines
+            # of cold processes; the traces and the entry/exit log they produce are validated like those above
+            if ids:
+                scheds, sched_stats = generate_schedules(work, 9 if tier == "quick" else 60)
+                gate_info["generated"] = sched_stats
+
+                def do_gated(k):
+                    sc = scheds[k]
+                    srng = random.Random(vlib.seed() * 7919 + 1800 + k)
+                    scn = suites.conc_scenario(2000 + 2 * k, srng, len(sc["use"]), first_ops=[{"A": "base", "B": "naf", "-": None}[u] for u in sc["use"]])
+                    scn["schedule"] = sc["turns"]
+                    scn["gate_getters"] = [ids["getterA"], ids["getterB"]]
+                    scn["gate_builders"] = [ids["builderA"], ids["builderB"]]
+                    scn["schedule_from"] = {"variant": sc["variant"], "use": sc["use"], "violates_Once_in_the_model": sc["bad"]}
+                    rc, out, tj, cj = run_scenario(drv, scn, work, "g", srng.choice([1, 4, 16]))
+                    if rc != 0:
+                        raise Infra("gated scenario driver failed (rc=%d):\n%s" % (rc, out[-2000:]))
+                    res = open(cj + ".sched").read() if os.path.exists(cj + ".sched") else ""
+                    with lock:
+                        gate_info["schedules"] += 1
+                        gate_info["turns"] += len(sc["turns"])
+                        gate_info["passed"] += res.count("p")
+                        gate_info["stutter"] += res.count("s") + res.count("l")
+                        gate_info["adversarial"] += 1 if sc["bad"] else 0
+                    jobs.append(("api", scn, ex.submit(vlib.validate_trace, work, tj)))
+                    idf = os.path.join(work.dir, "ids-%d.json" % scn["id"])
+                    open(idf, "w").write(json.dumps(ids) + "\n")
+                    if os.path.getsize(cj) > 0:
+                        once_n[0] += 1
+                        jobs.append(("once", scn, ex.submit(vlib.tlc, work, "TraceOnce", "TraceOnce.cfg", 1, 600,
+                                                            {"VERIF_TRACE": cj, "VERIF_ONCE_IDS": idf}, "2g")))
+                with cf.ThreadPoolExecutor(max_workers=4) as ex3:
+                    for r in ex3.map(do_gated, range(len(scheds))):
+                        pass
             once_logs = once_n[0]
             if os.environ.get("VERIF_TIMING"):
                 print("timing: scenarios executed at %.0fs" % (time.time() - t0))
@@ -151,6 +252,7 @@ def check(tier):
             "transitions": max(tot["transitions"] + sum(r["transitions"] for r in mc), 1),
             "traces_validated_against_impl": sum(len(s["goroutines"]) for s in scns),
             "samples": samples, "scenarios": len(scns), "once_logs_replayed": once_logs,
+            "gated_schedule_replays": gate_info,
             "race_detector_runs": len(scns) * (2 if tier == "quick" else 3), "seeded_cooperative_schedules": chaos_runs[0],
             "events_validated": tot["events"], "once_function_ids": ids or "not found (refactored names): log replay skipped",
             "model_checking_runs": mc, "exhaustive": False,
